@@ -112,8 +112,14 @@ class AppBase(BaseException):
     pass
 
 
-def make_exc(name):
+RAISE_LOG = None   # set by run_real: list of (exception name, number of successful writes so far)
+WRITES_NOW = None
+
+
+def make_exc(name, log=True):
     from waitress.channel import ClientDisconnected
+    if log and RAISE_LOG is not None:
+        RAISE_LOG.append((name, len(WRITES_NOW)))
     return {
         "AE": AssertionError, "VE": ValueError, "RE": RuntimeError, "CD": ClientDisconnected,
         "XE": AppExc, "XO": AppOS, "XB": AppBase,
@@ -318,7 +324,7 @@ def run_actions_real(acts, start_response, rec):
             if exc is None:
                 rec.write = start_response(real_obj(status), hs)
             else:
-                e = make_exc(exc)
+                e = make_exc(exc, log=False)
                 rec.write = start_response(real_obj(status), hs, (type(e), e, None))
                 rec.mirror = []
             rec.mirror = rec.mirror + hs      # the pair objects now referenced by response_headers
@@ -419,11 +425,21 @@ def run_real(case):
     request = StubRequest(rq["version"], rq["conn"], rq["head"], err)
 
     def application(environ, start_response):
-        run_actions_real(app["call"], start_response, rec)
-        return make_iterable(app, start_response, rec)
+        def sr(*a):
+            try:
+                return start_response(*a)
+            except BaseException as e:
+                raise_log.append((exc_name(e), len(writes)))   # raised by start_response in the application's frame
+                raise
+        run_actions_real(app["call"], sr, rec)
+        it = make_iterable(app, sr, rec)
+        rec.got_iterable = True
+        return it
 
     server.application = application
     writes = []
+    raise_log = []
+    global RAISE_LOG, WRITES_NOW
     disc = case["disc"]
 
     class RecChannel(wch.HTTPChannel):
@@ -474,10 +490,39 @@ def run_real(case):
         if disc is not None and not (0 < disc):
             ch.connected = False
         escaped = None
+        RAISE_LOG, WRITES_NOW = raise_log, writes
+        # run service() under the REAL worker loop (ThreadedTaskDispatcher.handler_thread) in this thread
+        disp = wtask.ThreadedTaskDispatcher()
+        seen = []
+
+        class WLog(NullLogger):
+            def exception(self, *a, **k):
+                import sys as _sys
+                seen.append(_sys.exc_info()[1])
+
+        disp.logger = WLog()
+
+        class Job:
+            def service(self_):
+                try:
+                    ch.service()
+                finally:
+                    disp.stop_count = 1   # the loop leaves after this task
+
+            def __repr__(self_):
+                return "<job>"
+
+        disp.queue.append(Job())
+        disp.threads.add(0)
+        disp.active_count = 1
+        worker_died = None
         try:
-            ch.service()
-        except BaseException as e:  # what handler_thread's catch-all would see
-            escaped = exc_name(e)
+            disp.handler_thread(0)
+        except BaseException as e:
+            worker_died = exc_name(e)
+        RAISE_LOG = WRITES_NOW = None
+        if seen:
+            escaped = exc_name(seen[0])
         rec.after_service = True
         closes = rec.closes
         handover = any(isinstance(b, ReadOnlyFileBasedBuffer) for b in ch.outbufs)
@@ -494,6 +539,9 @@ def run_real(case):
         }
         # consistency of the stub bookkeeping (not compared with the model)
         extra = {
+            "worker_died": worker_died,
+            "raised": raise_log,
+            "got_iterable": getattr(rec, "got_iterable", False),
             "requests_left": len(ch.requests),
             "request_closed": request.closed,
             "ntasks": len(rec.tasks),
